@@ -8,6 +8,7 @@ ASSUMPTIONS = ["input lines ascending and non-overlapping (a well-formed memory 
 L = {"RawIterRange": 2, "drop_elements": 2, "simd_bitmask": 2, "memchr": 16, "memcmp": 16, "compare_bytes": 16}
 def A(n, d, tier="quick", t=1800): return H("c13_aggregate::" + n, loops=L, desc=d, tier=tier, timeout=t, est_gb=12, mem_gb=24)
 HARNESSES = [
+    A('c13_2_same_adjacent', 'same file, adjacent (gap is a shape)'), A('c13_2_same_apart', 'same file, one page apart'), A('c13_2_diff_adjacent', 'different files, adjacent'), A('c13_2_file_anon_adjacent', 'file + anonymous, adjacent'), A('c13_3_fold_adjacent', 'file, anonymous, file: adjacent', 'thorough'),
     A("c13_2_same", "2 lines, same file"), A("c13_2_deleted_same", "2 lines, '/a (deleted)' then /a"), A("c13_2_diff", "2 lines, different files"),
     A("c13_2_file_anon", "file then anonymous (reserved-gap rule)"), H("c13_aggregate::c13_2_anon_anon", loops=L, desc="two anonymous lines (never merged)", timeout=1800, expect_unsat_covers=("a merge happened",)), A("c13_2_heap_heap", "two [heap] lines"),
     A("c13_2_vdso_gate", "anonymous + [vdso] with a symbolic gate address"), A("c13_2_file_anon_gate", "file + anonymous with a symbolic gate address"),
